@@ -62,9 +62,9 @@ class RateScenario(PipeScenario):
         p = self.params
         n = p["n"]
         if p["nprod"] == 1:
-            self.add_producer("p", self.src, list(range(1, n + 1)), mode=p["mode"])
+            self.add_producer("p", self.src, list(range(0, n)), mode=p["mode"])
         else:
-            self.add_producer("p", self.src, list(range(1, n)), mode=p["mode"])
+            self.add_producer("p", self.src, list(range(0, n - 1)), mode=p["mode"])
             self.add_producer("q", self.src2 if "twoup" in self.opts else self.src, [100], mode=p["mode"])
 
     def site(self):
